@@ -31,6 +31,8 @@
 //             and the raw value of the sop(out) signal in every cycle (not produced by the model; used by the oracle to
 //             decide independently of valid() whether a beat is on offer).
 //             ready_in is printed as 1 for streams without Ready.
+//   em=1    : like eb=1 but with scl::Empty (number of empty BYTES of the eop beat; w must be 8): RvPacketStream<UInt, TxId, Empty>;
+//             the extra field of the P / E lines is then in bytes.  (set eb=1 as well: same line format)
 //   eb=1    : the stream additionally carries scl::EmptyBits (RvPacketStream<UInt, TxId, EmptyBits>); the plan lines then
 //             have a 7th field, the emptyBits value of the beat, and the E lines one more column on each side.
 //   hold=1  : the producer keeps valid/payload/eop/meta of a beat that was offered but not accepted
@@ -73,6 +75,7 @@ struct Case {
 	size_t w = 4, mw = 3, min = 1, n = 0, eopg = 0;
 	bool hold = true, polite = true, pp = true, eb = false, seq = false, be = false;
 	std::string sig;
+	bool em = false;
 	std::vector<std::string> chain;
 	std::vector<PlanLine> plan;
 };
@@ -139,9 +142,12 @@ std::string bitsStr(const sim::DefaultBitVectorState &st)
 template<int MODE>
 void runCaseT(const Case &c, std::ostream &out)
 {
-	constexpr bool EB = MODE == 1, BE = MODE == 2;
-	using S = std::conditional_t<EB, scl::RvPacketStream<UInt, scl::TxId, scl::EmptyBits>,
-	          std::conditional_t<BE, scl::RvPacketStream<UInt, scl::TxId, scl::ByteEnable, scl::Error>, scl::RvPacketStream<UInt, scl::TxId>>>;
+	constexpr bool EM = MODE == 3;                 // scl::Empty (empty BYTES of the eop beat), same line format as EmptyBits
+	constexpr bool EB = MODE == 1 || EM, BE = MODE == 2;
+	using S = std::conditional_t<EM, scl::RvPacketStream<UInt, scl::TxId, scl::Empty>,
+	          std::conditional_t<EB, scl::RvPacketStream<UInt, scl::TxId, scl::EmptyBits>,
+	          std::conditional_t<BE, scl::RvPacketStream<UInt, scl::TxId, scl::ByteEnable, scl::Error>, scl::RvPacketStream<UInt, scl::TxId>>>>;
+	if (EM && c.w != 8) throw std::runtime_error("harness: em=1 needs w=8 (Empty counts bytes)");
 	if (BE && c.w != 8) throw std::runtime_error("harness: be=1 needs w=8 (one enable bit per byte)");
 	DesignScope design;
 	Clock clk({ .absoluteFrequency = 100'000'000 });
@@ -149,7 +155,8 @@ void runCaseT(const Case &c, std::ostream &out)
 
 	S in{ UInt(BitWidth(c.w * c.min)) };
 	txid(in) = BitWidth(c.mw);
-	if constexpr (EB) emptyBits(in) = BitWidth::count(c.w * c.min);
+	if constexpr (EM) scl::strm::empty(in) = BitWidth::last(c.min - 1);
+	else if constexpr (EB) emptyBits(in) = BitWidth::count(c.w * c.min);
 	if constexpr (BE) byteEnable(in) = BitWidth(c.min);
 	pinIn(in, "in");
 
@@ -242,7 +249,8 @@ void runCaseT(const Case &c, std::ostream &out)
 			simu(*in) = packDigits(beat.d, c.w, c.min);
 			simu(eop(in)) = beat.e ? '1' : '0';
 			simu(txid(in)) = beat.m;
-			if constexpr (EB) simu(emptyBits(in)) = beat.eb;
+			if constexpr (EM) { if (scl::strm::empty(in).width().bits()) simu(scl::strm::empty(in)) = beat.eb; }
+			else if constexpr (EB) simu(emptyBits(in)) = beat.eb;
 			if constexpr (BE) { simu(byteEnable(in)) = packBits(beat.be, c.min); simu(error(in)) = beat.err ? '1' : '0'; }
 			simu(ready(o)) = ctl.r ? '1' : '0';
 			for (size_t k = 0; k < nStall; k++) simu(stallPins[k]) = st[k] ? '1' : '0';
@@ -268,7 +276,11 @@ void runCaseT(const Case &c, std::ostream &out)
 				auto m = simu(txid(o));
 				out << payloadStr(simu(*o).eval(), c.w, digits) << " " << bitStr(simu(eop(o))) << " "
 					<< (m.allDefined() ? std::to_string((uint64_t)m.value()) : std::string("X"));
-				if constexpr (EB) { auto e = simu(emptyBits(o)); out << " " << (e.allDefined() ? std::to_string((uint64_t)e.value()) : std::string("X")); }
+				if constexpr (EM) {
+					if (scl::strm::empty(o).width().bits() == 0) out << " 0";
+					else { auto e = simu(scl::strm::empty(o)); out << " " << (e.allDefined() ? std::to_string((uint64_t)e.value()) : std::string("X")); }
+				}
+				else if constexpr (EB) { auto e = simu(emptyBits(o)); out << " " << (e.allDefined() ? std::to_string((uint64_t)e.value()) : std::string("X")); }
 				if constexpr (BE) out << " " << bitsStr(simu(byteEnable(o)).eval()) << " " << bitStr(simu(error(o)));
 				out << "\n";
 			}
@@ -410,7 +422,7 @@ void runCase(const Case &c, std::ostream &out)
 	if (c.sig == "rs") runCaseSig<scl::RsPacketStream<UInt, scl::TxId>>(c, out);
 	else if (c.sig == "v") runCaseSig<scl::VPacketStream<UInt, scl::TxId>>(c, out);
 	else if (c.sig == "s") runCaseSig<scl::SPacketStream<UInt, scl::TxId>>(c, out);
-	else if (c.be) runCaseT<2>(c, out); else if (c.eb) runCaseT<1>(c, out); else runCaseT<0>(c, out);
+	else if (c.be) runCaseT<2>(c, out); else if (c.em) runCaseT<3>(c, out); else if (c.eb) runCaseT<1>(c, out); else runCaseT<0>(c, out);
 }
 
 bool parseHeader(const std::string &line, Case &c)
@@ -433,6 +445,7 @@ bool parseHeader(const std::string &line, Case &c)
 		else if (k == "pp") c.pp = v == "1";
 		else if (k == "eb") c.eb = v == "1";
 		else if (k == "be") c.be = v == "1";
+		else if (k == "em") c.em = v == "1";
 		else if (k == "sig") c.sig = v;
 		else if (k == "prod") c.seq = v == "seq";
 		else if (k == "eopg") c.eopg = strtoull(v.c_str(), nullptr, 10);
